@@ -635,3 +635,30 @@ func init() {
 		},
 	}
 }
+
+func init() {
+	props["C14"] = &PropDef{
+		ID: "C14",
+		Tasks: func(tier string) []Task {
+			var ts []Task
+			// history independence: v2.0 ParseVector is verified for arbitrary stale contents of the
+			// pooled slice; the item is owned from Get to the deferred Put on every path
+			ts = append(ts, Task{Pkg: "20", Func: "ParseVector", Match: `/pool/|/safety/|/post/(accept_iff_grammar|accept_object|reject_nil)/`, Timeout: 60})
+			ts = append(ts, Task{Pkg: "20", Func: "split", Timeout: 60})
+			// Set: the new receiver value and the result are functions of the old value and the arguments
+			for _, p := range allPkgs {
+				ts = append(ts, Task{Pkg: p, Func: "(*" + typeOf(p) + ").Set", Match: `/post/(vals_array|fail_unchanged|error_value|ok_iff_legal)$`})
+			}
+			return ts
+		},
+		Custom: func(cc *CheckCtx) { cc.frameObligations() },
+		Trusted: append(append([]string{}, trustedCommon...),
+			"T5 sync.Pool contract: Get returns New's result or a value previously Put, handed to one caller at a time",
+			"T10 Go memory model: a function whose writes go only to objects it owns (or that its caller handed to it exclusively) and whose reads go to arguments, the receiver and never-written package data cannot participate in a data race"),
+		Assumptions: []string{
+			"NOT covered by this family of technique: no interleaving is executed or model-checked and the race detector is not used; what is proved are the frame / ownership conditions from which race freedom follows under T10",
+			"history independence follows from the contracts: every verified postcondition determines the result (and for Set the new receiver) as a function of the arguments and the receiver only; the single piece of shared mutable state, splitPool, enters v2.0 ParseVector with arbitrary contents",
+			"exported error sentinels are package variables that clients could reassign (T7)",
+		},
+	}
+}
